@@ -140,4 +140,52 @@ CHECKS.update({
                 'bounds and resident memory (I6); they are argued from the step structure only. Field-table / array decoder loops: C03 cone.',
     },
 })
+CHECKS.update({
+    'C03': {
+        'text': 'Encoders (encode_table_value, field_table, field_array, table_integer, the primitives) and decoders (embedded_value, '
+                'field_table, field_array, the primitives; all 19 type tags) are verified from the real AST against the field-table '
+                'grammar; containers are ghost sequences, the loops are cut on the remaining elements with one unfolding of the '
+                'specification per iteration (no bound on length or depth; recursive calls use the contract). A ghost lemma shows '
+                'decode(encode(v) ++ rest) == (len, Norm(v)) with the same Python type for every scalar type class.',
+        'design_ref': 'DESIGN.md 4 C03',
+        'note': COMMON_NOTE + 'For containers the composition of the two verified contracts (dec(enc(d)) == Norm(d)) is a '
+                'specification-level induction: taken as an axiom in the lemma and exercised by a bounded pipeline check against an '
+                'independent reference codec. encode.decimal (string / Decimal library arithmetic) is bounded only.',
+    },
+    'C10': {
+        'text': 'Every encoder contract ranges over ALL Python type classes (bool, int, float, Decimal, str, bytes, bytearray, naive '
+                'and aware datetime, struct_time, dict, list, tuple, None, foreign) and lists for each either the exact bytes - whose '
+                'decoding is the normalised input by the lemmas of C01-C03 - or the exception class: no path returns other bytes. '
+                'Includes encode.bit for non-flag integers and field_table for falsy non-dicts.',
+        'design_ref': 'DESIGN.md 4 C10',
+        'note': COMMON_NOTE + 'encode.decimal: bounded only. Values of foreign types: A8.',
+    },
+    'C12': {
+        'text': 'Determinism: every encoder clause is "returns <function of the argument values>". Order independence: the '
+                'specification encodes dict_sorted(d) and the loop invariant of field_table can only be established over the sorted '
+                'entry sequence. Non-mutation: every write to an object that existed before the call (argument containers, frame '
+                'attributes, module or class state, default arguments) fails a modifies-nothing obligation.',
+        'design_ref': 'DESIGN.md 4 C12',
+        'note': COMMON_NOTE + 'A4: sorted() on (name, value) pairs orders by name and depends on the contents only. A bounded '
+                'pipeline check encodes generated tables in reversed / rotated insertion order.',
+    },
+    'C15': {
+        'text': 'encode.timestamp and decode.timestamp are verified against contracts stated in whole seconds since the epoch; the '
+                'library model gives every host-time-zone dependent call (time.mktime, naive datetime.timestamp(), fromtimestamp() '
+                'without tz, astimezone()) a term containing the UNINTERPRETED function LOCAL_OFFSET, so an obligation that such '
+                'code reaches cannot be discharged: the quantifier over TZ settings becomes a universally quantified ghost function.',
+        'design_ref': 'DESIGN.md 4 C15',
+        'note': COMMON_NOTE + 'Trusted: the classification of library functions (A5) and exactness of float timestamps (A3). '
+                'A bounded add-on runs the codecs in child processes under several TZ settings (DST transition instants included).',
+    },
+    'C16': {
+        'text': 'Frame and freshness clauses on the real code: constructors store their arguments and allocate a fresh table / '
+                'property set when none is given; every decoder returns containers and objects allocated by that call; encoders '
+                'write nothing that existed before the call; only support_deprecated_rabbitmq writes module state. With those '
+                'clauses each call in a sequential history is the function of its arguments and the switch given by its contract.',
+        'design_ref': 'DESIGN.md 4 C16, 6',
+        'note': COMMON_NOTE + 'THREAD SCHEDULES ARE NOT DECIDED: the family has no concurrency reasoning here; the thread clause '
+                'rests on the sufficient condition (no shared mutable state between calls on disjoint arguments).',
+    },
+})
 NOT_APPLICABLE = {}
